@@ -261,7 +261,16 @@ func replayBatchFromChan(clck clock.Clock, batches <-chan edge.BufferedBatchMess
 				// Set tmax to last batch if not set.
 				b.Begin().SetTime(tmax)
 			} else {
-				tmax = b.Begin().Time().UTC()
+				// An empty batch still carries a time: shift it like every other timestamp of the replay.
+				t := b.Begin().Time()
+				if start.IsZero() {
+					start = t
+					diff = zero.Sub(start)
+				}
+				if !recTime {
+					t = t.Add(diff)
+				}
+				tmax = t.UTC()
 				b.Begin().SetTime(tmax)
 			}
 			if err := collector.CollectBatch(b); err != nil {
